@@ -1,11 +1,299 @@
-//! (not built yet)
-use serde_json::Value;
-use vcore::Run;
+//! C18 (end-to-end half) — only well-formed WebTransport requests and responses are admitted.
 
-pub fn run(run: &Run) {
-    run.inconclusive("check not built yet");
+use crate::common::*;
+use proptest::prelude::*;
+use refcodec::registry as reg;
+use serde::{Deserialize, Serialize};
+use serde_json::Value;
+use std::sync::Arc;
+use std::time::Duration;
+use vcore::{prop_search, Outcome, Run, Search};
+use wire::*;
+use wtransport::error::ConnectingError;
+
+const RULE: &str = "end-to-end: (a) a raw client sends 0..3 requests whose five pseudo-fields are each right / missing / wrong / wrong-case / near-miss, followed by a valid request, to the wtransport server: the application is offered a session iff the admission predicate holds, every other request is refused on its own stream (STOP_SENDING with H3_REQUEST_REJECTED or H3_MESSAGE_ERROR) and the connection stays usable (the following valid request is offered); (b) a raw server answers the wtransport client with generated :status texts (valid 2xx, valid non-2xx, missing, non-numeric, out of range, decorated): connect is Ok iff status in 200..=299, SessionRejected iff a valid non-2xx status, and any other status yields a connection error that is neither. Non-trivial: exactly one pseudo-field defect, or a status within +-1 of 100/200/300/599/600; distinct = distinct case";
+
+#[derive(Clone, Copy, Debug, Serialize, Deserialize, PartialEq, Eq)]
+pub enum Ps {
+    Right,
+    Missing,
+    Wrong,
+    WrongCase,
+    NearMiss,
 }
 
-pub fn replay(_run: &Run, _doc: &Value) -> bool {
-    false
+#[derive(Clone, Debug, Serialize, Deserialize)]
+pub struct Req {
+    pub ps: [Ps; 5],
+    pub wrong: String,
+}
+
+#[derive(Clone, Debug, Serialize, Deserialize)]
+pub struct Case {
+    pub flavor: u8,
+    /// true: raw client -> wt server (requests); false: raw server -> wt client (status)
+    pub requests_mode: bool,
+    pub requests: Vec<Req>,
+    /// None = no :status field at all
+    pub status: Option<String>,
+    pub extra: Vec<(String, String)>,
+}
+
+const NAMES: [&str; 5] = [":method", ":scheme", ":protocol", ":authority", ":path"];
+const RIGHT: [&str; 5] = ["CONNECT", "https", "webtransport", "example.org", "/x"];
+const WRONG_CASE: [&str; 5] = ["connect", "HTTPS", "WebTransport", "EXAMPLE.ORG", "/X"];
+const NEAR: [&str; 5] = [":methods", "scheme", ":protocols", ":authorit", ":paths"];
+
+fn ps_strategy() -> impl Strategy<Value = Ps> {
+    prop_oneof![6 => Just(Ps::Right), 1 => Just(Ps::Missing), 1 => Just(Ps::Wrong), 1 => Just(Ps::WrongCase), 1 => Just(Ps::NearMiss)]
+}
+
+pub fn case_strategy() -> impl Strategy<Value = Case> {
+    let req = (proptest::array::uniform5(ps_strategy()), prop_oneof![Just("GET".to_string()), Just("http".to_string()), Just("websocket".to_string()), Just(String::new()), "[A-Za-z]{1,8}"]).prop_map(|(ps, wrong)| Req { ps, wrong });
+    let status = prop_oneof![
+        3 => proptest::sample::select(vec!["200", "204", "299", "300", "199", "100", "403", "404", "599", "600", "99", "0", "999", "1000", "65535", "+200", "-200", " 200", "200 ", "0200", "2e2", "", "abc", "20", "2000", "２００"]).prop_map(|s| Some(s.to_string())),
+        2 => (100u32..700).prop_map(|v| Some(v.to_string())),
+        1 => Just(None),
+        1 => "[0-9+ -]{0,5}".prop_map(Some),
+    ];
+    (0u8..3, any::<bool>(), proptest::collection::vec(req, 0..4), status, proptest::collection::vec(("[a-z][a-z0-9-]{0,8}", "[!-~]{0,10}"), 0..3))
+        .prop_map(|(flavor, requests_mode, requests, status, extra)| Case { flavor, requests_mode, requests, status, extra })
+}
+
+/// (fields, admissible) of a generated request
+fn build(req: &Req) -> (Vec<(String, String)>, bool) {
+    let mut f = Vec::new();
+    let mut ok = true;
+    for i in 0..5 {
+        match req.ps[i] {
+            Ps::Right => f.push((NAMES[i].to_string(), RIGHT[i].to_string())),
+            Ps::Missing => ok = false,
+            Ps::Wrong => {
+                f.push((NAMES[i].to_string(), req.wrong.clone()));
+                if i < 3 && req.wrong != RIGHT[i] {
+                    ok = false;
+                }
+            }
+            Ps::WrongCase => {
+                f.push((NAMES[i].to_string(), WRONG_CASE[i].to_string()));
+                if i < 3 {
+                    ok = false;
+                }
+            }
+            Ps::NearMiss => {
+                f.push((NEAR[i].to_string(), RIGHT[i].to_string()));
+                ok = false;
+            }
+        }
+    }
+    (f, ok)
+}
+
+fn enc(fields: &[(String, String)]) -> Vec<u8> {
+    let f: Vec<(String, String, refcodec::qpack::EncOpts)> = fields.iter().map(|(k, v)| (k.clone(), v.clone(), Default::default())).collect();
+    headers_frame(&f)
+}
+
+async fn exec_requests(case: Arc<Case>) -> CaseResult {
+    let server_ep = wt_server(&Tuning::default());
+    let addr = server_ep.local_addr().unwrap();
+    // which request is the first admissible one? (requests + a final valid one)
+    let mut reqs: Vec<(Vec<(String, String)>, bool)> = case.requests.iter().map(build).collect();
+    reqs.push((NAMES.iter().zip(RIGHT.iter()).map(|(k, v)| (k.to_string(), format!("{v}-final"))).map(|(k, v)| if k == ":authority" || k == ":path" { (k, v) } else { (k.clone(), RIGHT[NAMES.iter().position(|n| *n == k).unwrap()].to_string()) }).collect(), true));
+    let first_ok = reqs.iter().position(|(_, ok)| *ok).unwrap();
+    let want_authority = reqs[first_ok].0.iter().find(|(k, _)| k == ":authority").map(|(_, v)| v.clone()).unwrap();
+    let serve = async {
+        let incoming = server_ep.accept().await;
+        let req = incoming.await.map_err(|e| conn_err(&e))?;
+        let authority = req.authority().to_string();
+        let headers = req.headers().clone();
+        let conn = req.accept().await.map_err(|e| conn_err(&e))?;
+        Ok::<_, String>((authority, headers, conn))
+    };
+    let reqs2 = reqs.clone();
+    let client = async {
+        let (ep, conn) = raw_connect(addr, &Tuning::default()).await?;
+        let control = open_control(&conn, &default_settings()).await?;
+        let mut streams = Vec::new();
+        let mut outcomes: Vec<String> = Vec::new();
+        for (i, (fields, ok)) in reqs2.iter().enumerate() {
+            let (mut s, mut r) = conn.open_bi().await.map_err(|e| e.to_string())?;
+            s.write_all(&enc(fields)).await.map_err(|e| e.to_string())?;
+            if i > first_ok {
+                // after a session is pending / established further requests are outside this check
+                streams.push((s, r));
+                break;
+            }
+            if *ok {
+                let mut buf = Vec::new();
+                let resp = read_frame_of(&mut r, &mut buf, &[reg::FRAME_HEADERS], Duration::from_secs(5)).await;
+                outcomes.push(match resp {
+                    Ok((_, p)) => format!("response:{:?}", decode_fields(&p).ok().and_then(|f| f.into_iter().find(|(k, _)| k == ":status").map(|(_, v)| v))),
+                    Err(e) => format!("no-response:{e}"),
+                });
+            } else {
+                // refused on its own stream: STOP_SENDING with a request-level code
+                let st = tokio::time::timeout(Duration::from_secs(5), s.stopped()).await;
+                outcomes.push(match st {
+                    Ok(Ok(Some(c))) => format!("stopped:{:#x}", c.into_inner()),
+                    Ok(Ok(None)) => "finished".to_string(),
+                    Ok(Err(e)) => format!("lost:{e}"),
+                    Err(_) => "not-refused".to_string(),
+                });
+            }
+            streams.push((s, r));
+        }
+        Ok::<_, String>((ep, conn, control, streams, outcomes))
+    };
+    let (s, c) = tokio::join!(tokio::time::timeout(Duration::from_secs(12), serve), client);
+    let (_ep, rconn, _control, _streams, outcomes) = match c {
+        Ok(x) => x,
+        Err(e) => return viol("C18:e2e:client-io", format!("raw client failed: {e} (a refused request must not take the connection down)")),
+    };
+    for (i, o) in outcomes.iter().enumerate() {
+        let (fields, ok) = &reqs[i];
+        if *ok {
+            if o != "response:Some(\"200\")" {
+                return viol("C18:e2e:valid-not-admitted", format!("valid request #{i} {:?} got {o}; earlier outcomes {:?}", fields, &outcomes[..i]));
+            }
+        } else {
+            let good = o == &format!("stopped:{:#x}", reg::H3_REQUEST_REJECTED) || o == &format!("stopped:{:#x}", reg::H3_MESSAGE_ERROR);
+            if !good {
+                return viol("C18:e2e:not-refused", format!("inadmissible request #{i} {:?} was not refused on its own stream: {o}; connection close reason {:?}", fields, rconn.close_reason().map(|e| close_seen(&e))));
+            }
+        }
+    }
+    match s {
+        Ok(Ok((authority, headers, _conn))) => {
+            if authority != want_authority {
+                return viol("C18:e2e:wrong-request-offered", format!("the application was offered a request with authority {authority:?}, the first admissible one has {want_authority:?}; fields {:?}", headers));
+            }
+        }
+        Ok(Err(e)) => return viol("C18:e2e:server-failed", format!("server side failed: {e}")),
+        Err(_) => return viol("C18:e2e:valid-not-offered", "the application was never offered the valid request".to_string()),
+    }
+    let defects: usize = case.requests.iter().map(|r| r.ps.iter().filter(|p| **p != Ps::Right).count()).filter(|d| *d == 1).count();
+    CaseResult::Pass { nontrivial: defects >= 1, labels: vec!["mode:requests", if first_ok > 0 { "refused-then-valid" } else { "valid-first" }] }
+}
+
+fn classify(status: &Option<String>) -> &'static str {
+    match status {
+        None => "malformed",
+        Some(s) => {
+            let b = s.as_bytes();
+            if b.len() == 3 && b.iter().all(|c| c.is_ascii_digit()) {
+                let v: u32 = s.parse().unwrap();
+                if (200..300).contains(&v) {
+                    "2xx"
+                } else if (100..600).contains(&v) {
+                    "non-2xx"
+                } else {
+                    "malformed"
+                }
+            } else {
+                // forms the statement leaves open (one leading '+', leading zeros with in-range value)
+                let d = s.strip_prefix('+').unwrap_or(s);
+                if !d.is_empty() && d.bytes().all(|c| c.is_ascii_digit()) && d.trim_start_matches('0').len() <= 3 {
+                    let v: u32 = d.trim_start_matches('0').parse().unwrap_or(0);
+                    if (100..600).contains(&v) {
+                        return "open";
+                    }
+                }
+                "malformed"
+            }
+        }
+    }
+}
+
+async fn exec_status(case: Arc<Case>) -> CaseResult {
+    let (raw_ep, addr) = match raw_server(&Tuning::default()) {
+        Ok(x) => x,
+        Err(e) => return CaseResult::Skip(e),
+    };
+    let client_ep = wt_client(&Tuning::default());
+    let status = case.status.clone();
+    let extra = case.extra.clone();
+    let serve = async {
+        let mut s = raw_server_accept(&raw_ep, &default_settings()).await?;
+        let mut fields: Vec<(String, String)> = Vec::new();
+        if let Some(st) = &status {
+            fields.push((":status".into(), st.clone()));
+        }
+        fields.extend(extra.iter().filter(|(k, _)| !k.starts_with(':')).cloned());
+        s.req_send.write_all(&enc(&fields)).await.map_err(|e| e.to_string())?;
+        Ok::<_, String>(s)
+    };
+    let (s, c) = tokio::join!(serve, tokio::time::timeout(Duration::from_secs(8), client_ep.connect(url_for(addr, "/"))));
+    let _s = match s {
+        Ok(s) => s,
+        Err(e) => return CaseResult::Skip(e),
+    };
+    let c = match c {
+        Ok(c) => c,
+        Err(_) => return CaseResult::Timeout("connect never completed".into()),
+    };
+    let class = classify(&case.status);
+    let got = match &c {
+        Ok(_) => "ok".to_string(),
+        Err(ConnectingError::SessionRejected) => "rejected".to_string(),
+        Err(ConnectingError::ConnectionError(e)) => format!("connection-error:{}", conn_err(e)),
+        Err(e) => format!("other:{e}"),
+    };
+    let fine = match class {
+        "2xx" => got == "ok",
+        "non-2xx" => got == "rejected",
+        "malformed" => got.starts_with("connection-error"),
+        _ => true, // open forms: any outcome, but see range check below
+    };
+    if !fine {
+        return viol(format!("C18:e2e:status:{class}"), format!(":status {:?} ({class}) -> connect = {got}", case.status));
+    }
+    let near = case.status.as_ref().and_then(|s| s.parse::<i64>().ok()).map(|v| [99, 100, 101, 199, 200, 201, 299, 300, 301, 598, 599, 600, 601].contains(&v)).unwrap_or(false);
+    CaseResult::Pass { nontrivial: near, labels: vec!["mode:status", match class { "2xx" => "status:2xx", "non-2xx" => "status:non-2xx", "malformed" => "status:malformed", _ => "status:open-form" }] }
+}
+
+pub fn exec(case: &Case) -> CaseResult {
+    let c = Arc::new(case.clone());
+    let fut = async move {
+        if c.requests_mode {
+            exec_requests(c).await
+        } else {
+            exec_status(c).await
+        }
+    };
+    match run_on(case.flavor, Duration::from_secs(30), fut) {
+        Some(r) => r,
+        None => CaseResult::Timeout("case did not finish in 30 s".into()),
+    }
+}
+
+pub fn run(run: &Run) {
+    run.set_rule(RULE);
+    prop_search(
+        run,
+        Search { check: "admission-e2e", cases: run.tier.pick(300, 4000), workers: 8, max_shrink_iters: 80 },
+        case_strategy,
+        |c| judge(|| exec(c), false, "C18:e2e:hang"),
+        |c| serde_json::to_value(c).unwrap(),
+    );
+    for l in ["mode:requests", "mode:status", "refused-then-valid", "status:2xx", "status:non-2xx", "status:malformed"] {
+        run.essential(l);
+    }
+}
+
+pub fn replay(run: &Run, doc: &Value) -> bool {
+    if doc["check"].as_str() != Some("admission-e2e") {
+        return false;
+    }
+    let Ok(case) = serde_json::from_value::<Case>(doc["case"].clone()) else {
+        return false;
+    };
+    run.eval("admission-e2e", true, 1);
+    for _ in 0..3 {
+        if let Outcome::Fail { signature, message } = judge(|| exec(&case), false, "C18:e2e:hang") {
+            run.fail("admission-e2e", &signature, &message, doc["case"].clone());
+            break;
+        }
+    }
+    true
 }
